@@ -43,6 +43,11 @@ ATTR_OPS = {  # attribute -> model gets
     "face_node_connectivity": [], "n_face": [], "n_node": [], "n_max_face_nodes": [], "sizes": [], "dims": [],
 }
 
+# operations returning a NEW grid: its lon/lat may have been derived before slicing (on the source's arrays) or after
+# (on the subset's arrays); numpy's vectorised arctan2/arcsin may differ in the last bit between the two array shapes,
+# so coordinates of derived grids are compared to 1e-12 (degrees) instead of bit-for-bit
+DERIVED_GRID_OPS = ("isel", "subset", "lat", "dual", "copy")
+
 _proj_cache = {}
 
 
@@ -316,6 +321,16 @@ def mk_grid(m, kind):
         pairs.reverse()
         return ux.Grid.from_topology(np.array(lon), np.array(lat), t, fill_value=FILL,
                                      edge_node_connectivity=np.array(pairs, dtype=np.intp))
+    if kind == "aux":
+        # a source that ships its own face areas (in its own units: nothing the library would compute), the way MPAS
+        # areaCell / SCRIP grid_area / a user assignment do: no read may ever replace them
+        import xarray as xr
+        ds = xr.Dataset()
+        ds["node_lon"] = xr.DataArray(np.array(lon), dims=["n_node"])
+        ds["node_lat"] = xr.DataArray(np.array(lat), dims=["n_node"])
+        ds["face_node_connectivity"] = xr.DataArray(t, dims=["n_face", "n_max_face_nodes"])
+        ds["face_areas"] = xr.DataArray(1.0e6 * (3.0 + np.arange(len(m.faces), dtype=float)), dims=["n_face"])
+        return ux.Grid.from_dataset(ds, source_grid_spec="Areas Source")
     if kind == "cart":
         # a source that ships Cartesian node coordinates only, on a sphere of radius 2.5
         import xarray as xr
@@ -382,7 +397,8 @@ def model_line(gets_per_op):
 def run_history(ck, meshes, kinds, hist, refs, g0, known_set, stats):
     """hist: list of (target index, op, gets). Returns list of per-op expected model positions."""
     grids = [mk_grid(m, k) for m, k in zip(meshes, kinds)]
-    extra = [({"node_x", "node_y", "node_z"} if k in ("xyz", "cart") else ({"edge_node_connectivity"} if k == "edges" else set()))
+    extra = [({"node_x", "node_y", "node_z"} if k in ("xyz", "cart") else
+              ({"edge_node_connectivity"} if k == "edges" else ({"face_areas"} if k == "aux" else set())))
              for k in kinds]
     case = {"meshes": [{"nodes": m.nodes, "faces": m.faces} for m in meshes], "kinds": kinds,
             "history": [[t, list(op)] for t, op, _ in hist]}
@@ -415,7 +431,7 @@ def run_history(ck, meshes, kinds, hist, refs, g0, known_set, stats):
             # introspection of what is materialised: may only grow with the history
             if op[0] == "attr" and r[0] == fresh[0] and r[0] in ("set", "dict") and not set(map(str, fresh[1])) <= set(map(str, r[1])):
                 ck.fail("introspection_lost_entries", dict(case, failing_step=step), info)
-        elif not same(r, fresh):
+        elif not same(r, fresh, tol=(1e-12 if op[0] in DERIVED_GRID_OPS else 0.0)):
             ck.fail("result_differs_from_fresh", dict(case, failing_step=step), info,
                     detail="history result %s vs fresh %s" % (str(r)[:300], str(fresh)[:300]))
         # (c) module-level constants
@@ -436,7 +452,10 @@ def run_history(ck, meshes, kinds, hist, refs, g0, known_set, stats):
                 if "edge_node_connectivity" in gg._ds and \
                         not same(arr(gg._ds["edge_node_connectivity"].values), refs[gi].var("edge_node_connectivity")):
                     ck.fail("source_variable_changed", dict(case, failing_step=step), dict(info, var="edge_node_connectivity", grid=gi))
-            impl_sets[gi].append(None if (raised[gi] or kinds[gi] == "cart") else sorted(groups))
+            impl_sets[gi].append(None if (raised[gi] or kinds[gi] in ("cart", "aux")) else sorted(groups))
+            if kinds[gi] == "aux":
+                if "face_areas" not in gg._ds or not same(arr(gg._ds["face_areas"].values), refs[gi].var("face_areas")):
+                    ck.fail("source_variable_changed", dict(case, failing_step=step), dict(info, var="face_areas", grid=gi))
             if unknown or partial:
                 ck.fail("unexpected_variables", dict(case, failing_step=step), dict(info, names=",".join(unknown + partial)))
             for name in map(str, gg._ds.variables):
@@ -528,7 +547,7 @@ def main(ck):
     for hi in range(n_hist):
         two = rng.random() < 0.35
         meshes = [meshgen.gen_mesh(rng, max_ops=rng.choice([3, 6, 10]), partial=rng.random() < 0.3) for _ in range(2 if two else 1)]
-        kinds = [rng.choice(["lonlat", "lonlat", "xyz", "cart", "edges"]) for _ in meshes]
+        kinds = [rng.choice(["lonlat", "lonlat", "xyz", "cart", "edges", "aux"]) for _ in meshes]
         refs = [Ref(m, k) for m, k in zip(meshes, kinds)]
         n = rng.choice([1, 2, 3, 3, 5, 8, 14]) if ck.tier == "quick" else rng.choice([1, 2, 3, 5, 8, 14, 30])
         hist = []
